@@ -321,6 +321,28 @@ func expectedAfterSubmit(pre *obs, accepted []*token) (map[*token]bool, map[*tok
 	return out, fresh
 }
 
+// limitStable tells whether a reorg run that promotes nothing leaves the state alone: SetGasPrice
+// (and nothing else) can leave the pool above a limit, because it demotes pending transactions to
+// the queue without a reorg run; the next run - also the one a rejected submission requests once it
+// got past the pre-lock filter - then truncates. That is limit enforcement, not an effect of the
+// rejected submission, so "a rejected submission leaves the pool unchanged" is required of
+// limit-stable states only.
+func limitStable(o *obs) bool {
+	p, q := o.count()
+	for s := 0; s < NS; s++ {
+		if o.locals[s] {
+			continue
+		}
+		if p > cfgGlobalSlots && len(o.P[s]) > cfgAccountSlots {
+			return false
+		}
+		if q > cfgGlobalQueue && len(o.Q[s]) > 0 {
+			return false
+		}
+	}
+	return true
+}
+
 // reorgRuns tells whether a submission reaches the pool lock and therefore ends in a reorg run:
 // at least one transaction is neither already indexed nor without a derivable sender.
 func reorgRuns(op *opDef, pre *obs) bool {
@@ -384,7 +406,7 @@ func checkTransition(pre *obs, op *opDef, res opResult, post *obs, postIdx map[*
 				accepted = append(accepted, t)
 			}
 		}
-		if len(accepted) == 0 && !sameContent(pre, post) {
+		if len(accepted) == 0 && !sameContent(pre, post) && limitStable(pre) {
 			f.add("rejected-changes-pool", "every submission was rejected (%v) but the pool changed from %s to %s", res.errs, pre.describe(), post.describe())
 		}
 		accSet := tokenSet(accepted)
@@ -632,13 +654,8 @@ func checkTransition(pre *obs, op *opDef, res opResult, post *obs, postIdx map[*
 				f.add("local-evicted", "%s of local sender %s disappeared in a coalesced round: %s --%s--> %s", t.name, senderNames[s], pre.describe(), op.name, post.describe())
 			}
 		}
-		if len(accepted) == 0 && post.cs == pre.cs && !sameContent(pre, post) {
-			// the stale run in flight may truncate an over-limit pool (after SetGasPrice): only a pool
-			// within its limits must be left alone
-			pp, pq := pre.count()
-			if pp <= cfgGlobalSlots && pq <= cfgGlobalQueue {
-				f.add("rejected-changes-pool", "every submission of the round was rejected (%v) but the pool changed from %s to %s", res.errs, pre.describe(), post.describe())
-			}
+		if len(accepted) == 0 && post.cs == pre.cs && !sameContent(pre, post) && limitStable(pre) {
+			f.add("rejected-changes-pool", "every submission of the round was rejected (%v) but the pool changed from %s to %s", res.errs, pre.describe(), post.describe())
 		}
 
 	case op.kind == opJournal:
@@ -732,7 +749,17 @@ func classify(pre *obs, op *opDef) string {
 	case op.kind == opJournal:
 		return "op=journal"
 	case op.kind == opAsync:
-		return "op=async"
+		if pre == nil {
+			return "op=async"
+		}
+		slots := pre.slots()
+		for _, t := range op.toks {
+			slots += t.slots
+		}
+		if slots > cfgGlobalSlots+cfgGlobalQueue {
+			return "op=async|ctx=full"
+		}
+		return "op=async|ctx=room"
 	}
 	return "op=?"
 }
